@@ -279,17 +279,9 @@ func (f *readFile) handleReadError(ctx context.Context, err error, fd *os.File,
 	}
 	vhook.Point("fs.eof", f.filePath)
 
-	select {
-	case <-truncate:
-		if isTruncated, err := f.truncated(fd); isTruncated {
-			return abortReading, err
-		}
-	case <-ctx.Done():
-		return abortReading, nil
-	default:
-	}
-
 	if !f.seekEOF {
+		// Not following the file: we are done, whatever happened to the path
+		// meanwhile (rotated, removed). Don't lose an unterminated last line.
 		dlog.Common.Info(f.FilePath(), "End of file reached")
 		if len(message.Bytes()) > 0 {
 			select {
@@ -298,6 +290,16 @@ func (f *readFile) handleReadError(ctx context.Context, err error, fd *os.File,
 			}
 		}
 		return abortReading, nil
+	}
+
+	select {
+	case <-truncate:
+		if isTruncated, err := f.truncated(fd); isTruncated {
+			return abortReading, err
+		}
+	case <-ctx.Done():
+		return abortReading, nil
+	default:
 	}
 
 	return nothing, nil
